@@ -188,6 +188,8 @@ class MuEngine(Engine):
         rec.flags = {k: v for k, v in st.ghost.items() if isinstance(k, tuple) and k and k[0] == 'flag'}
         if rec.new_spin != rec.spin:
             st.mem.pop(cell, None)
+        if wcn == 'cv' and rec.new_spin == 1 and rec.spin == 0:
+            st.ghost[('flag', 'cv_spin_taken', rec.instance)] = 1        # C13.R4: this thread has been inside the cv's spinlock
         if wcn == 'mu':
             K = self.K
             inst = rec.instance
